@@ -38,13 +38,14 @@ func runC18(r *an.Run) {
 			fee := an.FieldPath(an.LocalNamed("sweepCtx"), "fee")
 			bud := an.FieldPath(an.LocalNamed("req"), "Budget")
 			n := 0
-			for _, s := range f.Returns() {
-				rs := s.Node.(*ast.ReturnStmt)
-				if !an.IsNilIdent(f.Info(), rs.Results[1]) {
-					continue
-				}
+			// every exit that is not certainly a failure (a nil literal, but
+			// also an error variable that may be nil)
+			for _, s := range f.SuccessReturns() {
 				n++
-				guarded(o, f, s, an.CmpX(fee, an.LE, bud, "sweepCtx.fee <= req.Budget"))
+				within := an.CmpX(fee, an.LE, bud, "sweepCtx.fee <= req.Budget")
+				guarded(o, f, s, within)
+				// the context and the request compared are the ones in effect at the exit
+				c17HoldsSinceLastWrite(o, f, s, within, c17LocalObj(f, "sweepCtx"), c17LocalObj(f, "req"))
 				mustPass(o, f, "createSweepTx", f.Calls(an.CalleeIs(tp+"createSweepTx"), false), an.OkErrNil, []an.Site{s})
 			}
 			if n < 1 {
@@ -146,118 +147,10 @@ func runC18(r *an.Run) {
 		})
 
 	r.Obl("rate-ceiling-clamps", "GUARD",
-		"MaxFeeRateAllowed returns r.MaxFeeRate when Budget/size exceeds it and Budget/size otherwise; the fee function is constructed with that value as its ending rate, and a starting rate above it is replaced by it before the per-block delta and the current rate are derived; feeRateAtPosition returns the ending rate for p >= width or when the computed rate exceeds it, and the computed rate only below `rate <= endingFeeRate`",
+		"MaxFeeRateAllowed returns r.MaxFeeRate when Budget/size exceeds it and Budget/size otherwise, size being the weight of the request's inputs; the fee function is constructed (only by initializeFeeFunction) with exactly that value as its ending rate, which is never written afterwards and is the only rate a constructor literal may carry directly, and a starting rate above it is replaced by it before the per-block delta and the current rate are derived; feeRateAtPosition returns the ending rate for p >= width or when the computed rate exceeds it, and the computed rate only below `rate <= endingFeeRate`",
 		"a ceiling above the budget rate or the configured maximum lets later bumps exceed what the property allows", 8,
 		func(o *an.Obl) {
-			f := p.Func(sw + "BumpRequest.MaxFeeRateAllowed")
-			var budgetRate string
-			for _, s := range f.Assigns(an.LocalNamed("maxFeeRateAllowed"), false) {
-				budgetRate = f.Canon(s.Node.(*ast.AssignStmt).Rhs[0])
-				o.Site("budget rate = %s", budgetRate)
-				if !strings.Contains(budgetRate, "NewSatPerKWeight($recv.Budget, ") {
-					o.FailAt(f.ID+"#budget-rate", s.Where(), "the budget rate is %s, expected Budget over the transaction weight", budgetRate)
-				}
-			}
-			cap := an.FieldPath(an.Recv(), "MaxFeeRate")
-			loc := an.LocalNamed("maxFeeRateAllowed")
-			k := 0
-			for _, s := range f.Returns() {
-				rs := s.Node.(*ast.ReturnStmt)
-				if !an.IsNilIdent(f.Info(), rs.Results[1]) {
-					continue
-				}
-				k++
-				switch an.Text(rs.Results[0]) {
-				case "r.MaxFeeRate":
-					guarded(o, f, s, an.CmpX(loc, an.GT, cap, "budget rate > MaxFeeRate"))
-				case "maxFeeRateAllowed":
-					guarded(o, f, s, an.CmpX(loc, an.LE, cap, "budget rate <= MaxFeeRate"))
-				default:
-					o.FailAt(f.ID+"#returns", s.Where(), "MaxFeeRateAllowed returns %s", an.Text(rs.Results[0]))
-				}
-			}
-			if k != 2 {
-				o.FailAt(f.ID+"#exits", f.Where(f.Body.Pos()), "expected two successful exits, found %d", k)
-			}
-			g := p.Func(tp + "initializeFeeFunction")
-			nf := g.Calls(an.CalleeIs(sw+"NewLinearFeeFunction"), false)
-			if need(o, g, "NewLinearFeeFunction", nf, 1) {
-				a := g.ArgCanon(nf[0])
-				o.Site("NewLinearFeeFunction ceiling = %s", a[0])
-				if !strings.Contains(a[0], "MaxFeeRateAllowed()") {
-					o.FailAt(g.ID+"#ceiling", nf[0].Where(), "the fee function's ceiling is %s", a[0])
-				}
-				mustPass(o, g, "MaxFeeRateAllowed", g.Calls(an.CalleeIs(sw+"BumpRequest.MaxFeeRateAllowed"), false), an.OkErrNil, nf)
-			}
-			c := p.Func(sw + "NewLinearFeeFunction")
-			for _, cl := range p.CompositeLitsOf(p.LookupType("sweep", "LinearFeeFunction")) {
-				if cl.Fn == nil || cl.Fn.ID != c.ID {
-					continue
-				}
-				for _, el := range cl.Node.(*ast.CompositeLit).Elts {
-					kv := el.(*ast.KeyValueExpr)
-					if an.Text(kv.Key) == "endingFeeRate" {
-						o.Site("constructor endingFeeRate = %s", an.Text(kv.Value))
-						if c.Canon(kv.Value) != "$p0" {
-							o.FailAt(c.ID+"#ending", c.Where(kv.Pos()), "endingFeeRate is initialised from %s", an.Text(kv.Value))
-						}
-					}
-				}
-			}
-			// the starting rate is never above the ending rate when the
-			// per-block delta `end - start` is computed (the delta is stored
-			// in an unsigned type): either `start > end` is false or start
-			// was set to end
-			var deltas, caps []an.Site
-			for _, v := range c.Graph().V {
-				as, ok := v.Node.(*ast.AssignStmt)
-				if !ok || len(as.Lhs) != 1 || len(as.Rhs) != 1 {
-					continue
-				}
-				l, rhs := an.Text(as.Lhs[0]), c.Canon(as.Rhs[0])
-				if strings.Contains(an.Text(as.Rhs[0]), "end - start") {
-					deltas = append(deltas, an.Site{Fn: c, V: v, Node: as})
-				}
-				if l == "start" && as.Tok.String() == "=" {
-					o.Site("start = %s", rhs)
-					if an.Text(as.Rhs[0]) == "end" {
-						caps = append(caps, an.Site{Fn: c, V: v, Node: as})
-					} else {
-						o.FailAt(c.ID+"#start-reassigned", c.Where(as.Pos()), "the starting rate is reassigned to %s", rhs)
-					}
-				}
-			}
-			if need(o, c, "delta computation from end - start", deltas, 1) {
-				le := an.CmpX(an.LocalNamed("start"), an.LE, an.LocalNamed("end"), "start <= end")
-				if len(caps) == 0 {
-					// rejecting instead of capping is as good
-					guardedAll(o, c, deltas, le)
-				} else {
-					mustDoUnless(o, c, "start = end", caps, deltas, le)
-				}
-			}
-			for _, s := range c.Assigns(an.Field(sw+"LinearFeeFunction", "currentFeeRate", nil), false) {
-				o.Site("%s", s.String())
-				if len(deltas) > 0 {
-					before(o, c, "the cap of the starting rate", deltas, "the assignment of currentFeeRate", []an.Site{s})
-				}
-			}
-			h := p.Func(sw + "LinearFeeFunction.feeRateAtPosition")
-			end := an.FieldPath(an.Recv(), "endingFeeRate")
-			for _, s := range h.Returns() {
-				txt := an.Text(s.Node.(*ast.ReturnStmt).Results[0])
-				switch txt {
-				case "l.endingFeeRate":
-					guarded(o, h, s, an.AnyOf("p >= width or rate above the ceiling",
-						an.CmpX(an.Param(0), an.GE, an.FieldPath(an.Recv(), "width"), ""),
-						an.CmpX(an.LocalNamed("feeRate"), an.GT, end, "")))
-				case "feeRate":
-					guarded(o, h, s, an.CmpX(an.LocalNamed("feeRate"), an.LE, end, "feeRate <= endingFeeRate"))
-					guarded(o, h, s, an.CmpX(an.Param(0), an.LT, an.FieldPath(an.Recv(), "width"), "p < width"))
-				default:
-					o.FailAt(h.ID+"#returns", s.Where(), "feeRateAtPosition returns %s", txt)
-				}
-			}
+			c18RateCeilingClamps(o, p)
 		})
 
 	r.Obl("schedule-position-monotone", "STATE",
@@ -325,292 +218,31 @@ func runC18(r *an.Run) {
 		})
 
 	r.Obl("ramp-follows-the-block-height", "PATH",
-		"TxPublisher.monitor stores the height of the new block before it processes the records of that block, and Start stores it before the monitor runs; the conf target of the initial fee function and of every bump is calcCurrentConfTarget(stored height, req.DeadlineHeight), which is deadline - current height floored at zero; a bump hands exactly that conf target to IncreaseFeeRate and publishes only when it reported an increase",
+		"TxPublisher.monitor stores the height of the new block before it processes the records of that block, and Start stores it before the monitor runs; the conf target of the initial fee function and of every bump is calcCurrentConfTarget(stored height, req.DeadlineHeight), which is deadline - current height floored at zero; calcCurrentConfTarget returns that value unchanged; a bump hands exactly that conf target to IncreaseFeeRate of the record's fee function and publishes only when that call reported an increase",
 		"a height that lags by one block shifts the whole ramp: the ceiling is offered at the deadline block instead of one block before it", 7,
 		func(o *an.Obl) {
-			isStore := func(id string, c *ast.CallExpr) bool {
-				sel, ok := c.Fun.(*ast.SelectorExpr)
-				return ok && sel.Sel.Name == "Store" && strings.HasSuffix(an.Text(sel.X), ".currentHeight")
-			}
-			mon := p.Func(tp + "monitor")
-			st := mon.Calls(isStore, false)
-			pr := mon.Calls(an.CalleeIs(tp+"processRecords"), false)
-			if need(o, mon, "currentHeight.Store", st, 1) && need(o, mon, "processRecords", pr, 1) {
-				before(o, mon, "currentHeight.Store", st, "processRecords", pr)
-				// inside one block event: the store sits in the same case body, ahead
-				for _, a := range st {
-					if c := mon.Canon(callArg(a, 0)); !reMatch(`\.Height\(\)$`, c) {
-						o.FailAt(mon.ID+"#stored-height", a.Where(), "the stored height is %s, expected the height of the received block", c)
-					}
-					for _, b := range pr {
-						if a.Node.Pos() > b.Node.Pos() {
-							o.FailAt(mon.ID+"#height-after-records", a.Where(), "the block's height is stored after its records were processed: every bump of this block sees the previous height")
-						}
-					}
-				}
-			}
-			start := p.Func(tp + "Start")
-			sst := start.Calls(isStore, false)
-			if need(o, start, "currentHeight.Store", sst, 1) {
-				for _, v := range start.Graph().V {
-					if g, ok := v.Node.(*ast.GoStmt); ok && strings.Contains(an.Text(g.Call.Fun), "monitor") {
-						before(o, start, "currentHeight.Store", sst, "go t.monitor()", []an.Site{{Fn: start, V: v, Node: g}})
-					}
-				}
-			}
-			// conf target sources
-			for _, fn := range []string{tp + "initializeFeeFunction", tp + "handleFeeBumpTx"} {
-				f := p.Func(fn)
-				cs := f.Calls(an.CalleeIs(sw+"calcCurrentConfTarget"), false)
-				if !need(o, f, "calcCurrentConfTarget", cs, 1) {
-					continue
-				}
-				a := f.ArgCanon(cs[0])
-				o.Site("%s: conf target = calcCurrentConfTarget(%s, %s)", fn, a[0], a[1])
-				if a[0] != "$recv.currentHeight.Load()" && a[0] != "$p1" {
-					o.FailAt(fn+"#height-source", cs[0].Where(), "the conf target is computed from height %s", a[0])
-				}
-				if !strings.HasSuffix(a[1], ".DeadlineHeight") {
-					o.FailAt(fn+"#deadline-source", cs[0].Where(), "the conf target is computed from deadline %s", a[1])
-				}
-			}
-			prc := p.Func(tp + "processRecords")
-			for _, v := range prc.Graph().V {
-				g, ok := v.Node.(*ast.GoStmt)
-				if !ok || !strings.Contains(an.Text(g.Call.Fun), "handleFeeBumpTx") {
-					continue
-				}
-				c := prc.Canon(g.Call.Args[1])
-				o.Site("processRecords hands height %s to handleFeeBumpTx", c)
-				if c != "$recv.currentHeight.Load()" {
-					o.FailAt(prc.ID+"#bump-height", prc.Where(g.Pos()), "bumps are given height %s", c)
-				}
-			}
-			cc := p.Func(sw + "calcCurrentConfTarget")
-			for _, s := range cc.Assigns(an.LocalNamed("deadlineDelta"), false) {
-				if c := cc.Canon(s.Node.(*ast.AssignStmt).Rhs[0]); c != "($p1 - $p0)" {
-					o.FailAt(cc.ID+"#delta", s.Where(), "blocks left are %s, expected deadline - currentHeight", c)
-				}
-			}
-			for _, s := range cc.Assigns(an.LocalNamed("confTarget"), false) {
-				c := cc.Canon(s.Node.(*ast.AssignStmt).Rhs[0])
-				o.Site("confTarget = %s", c)
-				switch c {
-				case "0":
-					guarded(o, cc, s, an.Cmp(an.LocalNamed("deadlineDelta"), an.LT, an.IntConst(0), "deadlineDelta < 0"))
-				case "uint32(($p1 - $p0))":
-					guarded(o, cc, s, an.Cmp(an.LocalNamed("deadlineDelta"), an.GE, an.IntConst(0), "deadlineDelta >= 0"))
-				default:
-					o.FailAt(cc.ID+"#conf-target", s.Where(), "the conf target is %s", c)
-				}
-			}
-			hb := p.Func(tp + "handleFeeBumpTx")
-			inc := hb.Calls(an.CalleeNamed("IncreaseFeeRate"), false)
-			pub := hb.Calls(an.CalleeIs(tp+"createAndPublishTx"), false)
-			if need(o, hb, "IncreaseFeeRate", inc, 1) && need(o, hb, "createAndPublishTx", pub, 1) {
-				if a := hb.ArgCanon(inc[0]); !strings.HasPrefix(a[0], sw+"calcCurrentConfTarget(") {
-					o.FailAt(hb.ID+"#increase-arg", inc[0].Where(), "IncreaseFeeRate is given %s", a[0])
-				}
-				mustPass(o, hb, "IncreaseFeeRate", inc, an.OkErrNil, pub)
-				guarded(o, hb, pub[0], an.Truth(an.LocalNamed("increased"), true, "increased"))
-			}
+			c18RampFollowsHeight(o, p)
 		})
 
 	r.Obl("every-input-spent-once", "PATH",
-		"TxPublisher.createSweepTx: the two loops over the requested inputs skip on complementary predicates (RequiredTxOut() == nil / != nil) and each adds exactly one transaction input per non-skipped element, spending that element's outpoint; a required output is added together with its input",
+		"TxPublisher.createSweepTx: the two loops over the requested inputs skip on complementary predicates (RequiredTxOut() == nil / != nil) and each adds exactly one transaction input per non-skipped element, spending that element's outpoint; a required output is added together with its input; every element that gets a transaction input is put on the list the signing loop ranges over, whose closure crafts and stores the witness of the listed input for its own index",
 		"an input left out of the transaction stays unswept although the caller was told it was handled; one added twice makes the transaction invalid", 3,
 		func(o *an.Obl) {
-			f := p.Func(tp + "createSweepTx")
-			adds := f.Calls(an.CalleeNamed("AddTxIn"), false)
-			if !need(o, f, "AddTxIn", adds, 2) {
-				return
-			}
-			var preds []string
-			for _, s := range adds {
-				hdr := enclosingLoopHeader(f, s.Node)
-				if hdr != "$p0" {
-					o.FailAt(f.ID+"#input-loop", s.Where(), "transaction inputs are added from %s, expected the requested inputs", hdr)
-				}
-				reqNil, _ := f.Guarded(s, an.IsNil(an.CallNamed("RequiredTxOut", nil), true, ""))
-				reqSet, _ := f.Guarded(s, an.IsNil(an.CallNamed("RequiredTxOut", nil), false, ""))
-				preds = append(preds, map[[2]bool]string{{true, false}: "no-required-output", {false, true}: "required-output"}[[2]bool{reqNil, reqSet}])
-				o.Site("%s for inputs with %s", s.String(), preds[len(preds)-1])
-				// spends the element's outpoint
-				txt := f.Canon(callArg(s, 0))
-				if !strings.Contains(txt, "PreviousOutPoint: $elem($p0).OutPoint()") {
-					o.FailAt(f.ID+"#outpoint", s.Where(), "the transaction input does not spend the loop element's outpoint: %s", txt)
-				}
-			}
-			if len(preds) != 2 || preds[0] == preds[1] || preds[0] == "" || preds[1] == "" {
-				o.FailAt(f.ID+"#complementary", f.Where(f.Body.Pos()), "the two input loops do not partition the inputs: %v", preds)
-			}
-			// each loop: every non-skipped iteration passes AddTxIn
-			for i, s := range adds {
-				var head *an.FlowVertex
-				for _, v := range f.Graph().V {
-					if rs, ok := v.Node.(*ast.RangeStmt); ok && rs.Pos() <= s.Node.Pos() && s.Node.End() <= rs.End() && f.Canon(rs.X) == "$p0" {
-						head = v
-					}
-				}
-				if head == nil {
-					continue
-				}
-				var body *an.FlowVertex
-				for _, e := range head.Out {
-					if e.Kind == 4 {
-						body = e.To
-					}
-				}
-				skip := an.IsNil(an.CallNamed("RequiredTxOut", nil), preds[i] == "required-output", "")
-				cut := f.EdgesOf(skip)
-				if body != nil && f.Graph().Reach(body, cut, map[*an.FlowVertex]bool{head: true, s.V: true})[head] {
-					o.FailAt(f.ID+"#skipped-input", s.Where(), "an input of the %s class can pass its loop without getting a transaction input", preds[i])
-				}
-			}
-			ro := f.Calls(an.CalleeNamed("AddTxOut"), false)
-			nReq := 0
-			for _, s := range ro {
-				if strings.Contains(f.Canon(callArg(s, 0)), "RequiredTxOut()") {
-					nReq++
-					guarded(o, f, s, an.IsNil(an.CallNamed("RequiredTxOut", nil), false, "o.RequiredTxOut() != nil"))
-					if c := f.Canon(callArg(s, 0)); c != "$elem($p0).RequiredTxOut()" {
-						o.FailAt(f.ID+"#required-output-source", s.Where(), "the required output added is %s, expected the loop element's", c)
-					}
-				}
-			}
-			if nReq != 1 {
-				o.FailAt(f.ID+"#required-output-sites", f.Where(f.Body.Pos()), "expected exactly one place that adds an input's required output, found %d", nReq)
-			}
+			c18EveryInputSpentOnce(o, p)
 		})
 
 	r.Obl("leftover-is-change-or-fee", "PATH",
-		"prepareSweepTx: changeAmt = totalInput - requiredOutput - txFee below `requiredOutput + txFee <= totalInput`; on every successful path it is either appended as the change output (only below `changeAmt >= dust floor of the change script`) or added to the returned fee; the returned fee is that txFee; locktime conflicts and immature locktimes fail",
+		"prepareSweepTx: changeAmt = totalInput - requiredOutput - txFee below `requiredOutput + txFee <= totalInput`; on every successful path it is either appended as the change output (only below `changeAmt >= dust floor of the change script`) or added to the returned fee; the returned fee is that txFee; every input of the loop adds its value to totalInput; the collected change outputs are the ones returned whenever there are any; the lock time tested and adopted is the one required by the input of that iteration; locktime conflicts and immature locktimes fail",
 		"a dust change output is unrelayable; a leftover neither paid out nor counted in the reported fee makes the real fee exceed what the budget check saw", 6,
 		func(o *an.Obl) {
-			f := p.Func(sw + "prepareSweepTx")
-			// the transaction's lock time: an input's required lock time is
-			// adopted only when it is reached and equals the one adopted so far
-			nLT := 0
-			for _, s := range f.Assigns(an.LocalNamed("locktime"), false) {
-				as := s.Node.(*ast.AssignStmt)
-				if as.Tok == token.DEFINE || an.Text(as.Rhs[0]) == "int32(-1)" {
-					continue
-				}
-				nLT++
-				o.Site("locktime = %s", an.Text(as.Rhs[0]))
-				if an.Text(as.Rhs[0]) != "int32(lt)" {
-					o.FailAt(f.ID+"#locktime-value", s.Where(), "the lock time adopted is %s", an.Text(as.Rhs[0]))
-				}
-				guarded(o, f, s, an.Truth(an.LocalNamed("ok"), true, "the input requires a lock time"))
-				guarded(o, f, s, an.CmpX(an.LocalNamed("lt"), an.LE, canonTerm(`^\$p\d$`), "lt <= uint32(currentHeight)"))
-				guarded(o, f, s, an.AnyOf("no lock time adopted yet, or the same one",
-					an.CmpX(an.LocalNamed("locktime"), an.EQ, canonTerm(`^-1$`), ""),
-					an.CmpX(an.LocalNamed("locktime"), an.EQ, an.LocalNamed("lt"), "")))
-			}
-			if nLT != 1 {
-				o.FailAt(f.ID+"#locktime-sites", f.Where(f.Body.Pos()), "expected one place that adopts an input's lock time, found %d", nLT)
-			}
-			ca := f.Assigns(an.LocalNamed("changeAmt"), false)
-			if need(o, f, "changeAmt", ca, 1) {
-				c := f.Canon(ca[0].Node.(*ast.AssignStmt).Rhs[0])
-				o.Site("changeAmt = %s", an.Text(ca[0].Node.(*ast.AssignStmt).Rhs[0]))
-				if an.Text(ca[0].Node.(*ast.AssignStmt).Rhs[0]) != "totalInput - requiredOutput - txFee" {
-					o.FailAt(f.ID+"#change-amount", ca[0].Where(), "changeAmt is %s", c)
-				}
-				guarded(o, f, ca[0], an.CmpX(canonTerm(`.*`), an.LE, an.LocalNamed("totalInput"), "requiredOutput + txFee <= totalInput"))
-			}
-			floor := an.LocalNamed("changeFloor")
-			amt := an.LocalNamed("changeAmt")
-			var toFee, toChange []an.Site
-			for _, v := range f.Graph().V {
-				as, ok := v.Node.(*ast.AssignStmt)
-				if !ok || len(as.Lhs) != 1 {
-					continue
-				}
-				s := an.Site{Fn: f, V: v, Node: as}
-				switch {
-				case an.Text(as.Lhs[0]) == "txFee" && as.Tok == token.ADD_ASSIGN:
-					if an.Text(as.Rhs[0]) != "changeAmt" {
-						o.FailAt(f.ID+"#fee-add", s.Where(), "the fee is increased by %s", an.Text(as.Rhs[0]))
-					}
-					toFee = append(toFee, s)
-					guarded(o, f, s, an.CmpX(amt, an.LT, floor, "changeAmt < changeFloor"))
-				case an.Text(as.Lhs[0]) == "txFee" && as.Tok != token.DEFINE:
-					o.FailAt(f.ID+"#fee-write", s.Where(), "unexpected fee update %s", an.Text(as))
-				case an.Text(as.Lhs[0]) == "changeOuts" && isAppend(f, as.Rhs[0]) && kvText(as.Rhs[0], "IsExtra") == "false":
-					toChange = append(toChange, s)
-					guarded(o, f, s, an.CmpX(amt, an.GE, floor, "changeAmt >= changeFloor"))
-					if kvText(as.Rhs[0], "Value") != "int64(changeAmt)" {
-						o.FailAt(f.ID+"#change-value", s.Where(), "the change output carries %s, expected changeAmt", kvText(as.Rhs[0], "Value"))
-					}
-				}
-			}
-			need(o, f, "txFee += changeAmt", toFee, 1)
-			need(o, f, "change output", toChange, 1)
-			stop := map[*an.FlowVertex]bool{}
-			for _, s := range append(toFee, toChange...) {
-				stop[s.V] = true
-			}
-			if len(ca) == 1 {
-				reach := f.Graph().Reach(ca[0].V, nil, stop)
-				for _, s := range f.Returns() {
-					rs := s.Node.(*ast.ReturnStmt)
-					if !an.IsNilIdent(f.Info(), rs.Results[3]) {
-						continue
-					}
-					o.Site("success exit %s", s.String())
-					if reach[s.V] {
-						o.FailAt(f.ID+"#leftover-lost", s.Where(), "prepareSweepTx can succeed with the leftover amount neither in a change output nor in the reported fee")
-					}
-					if an.Text(rs.Results[0]) != "txFee" {
-						o.FailAt(f.ID+"#reported-fee", s.Where(), "the reported fee is %s", an.Text(rs.Results[0]))
-					}
-				}
-			}
-			for _, s := range f.Assigns(floor, false) {
-				c := f.Canon(s.Node.(*ast.AssignStmt).Rhs[0])
-				o.Site("changeFloor = %s", c)
-				if !strings.Contains(c, "DustLimitForSize(len($p1.DeliveryAddress))") {
-					o.FailAt(f.ID+"#dust-floor", s.Where(), "the dust floor is %s", c)
-				}
-			}
+			c18LeftoverIsChangeOrFee(o, p)
 		})
 
 	r.Obl("rbf-loop-exits", "PATH",
-		"createRBFCompliantTx returns a record only below a nil error of createAndCheckTx in that iteration; every other exit is an error; within the loop the fee changes only through feeFunction.Increment, whose error leaves the loop",
+		"createRBFCompliantTx returns a record only below a nil error of createAndCheckTx in that iteration; every other exit is an error; within the loop the fee changes only through Increment of the record's fee function (installed only by initializeTx), whose error leaves the loop and whose success is followed by a new createAndCheckTx before any record is returned",
 		"a record returned after a failed check publishes a transaction the mempool test or the budget rejected", 3,
 		func(o *an.Obl) {
-			f := p.Func(tp + "createRBFCompliantTx")
-			chk := f.Calls(an.CalleeIs(tp+"createAndCheckTx"), false)
-			if !need(o, f, "createAndCheckTx", chk, 1) {
-				return
-			}
-			for _, s := range f.Returns() {
-				rs := s.Node.(*ast.ReturnStmt)
-				if an.IsNilIdent(f.Info(), rs.Results[1]) {
-					mustPass(o, f, "createAndCheckTx", chk, an.OkErrNil, []an.Site{s})
-					guarded(o, f, s, an.IsNil(an.LocalNamed("err"), true, "err == nil"))
-				} else if !an.IsNilIdent(f.Info(), rs.Results[0]) {
-					o.FailAt(f.ID+"#error-with-record", s.Where(), "a record is returned together with an error")
-				}
-			}
-			incs := f.Calls(an.CalleeNamed("Increment"), false)
-			if need(o, f, "feeFunction.Increment", incs, 1) {
-				// a failed Increment (budget used up) ends the attempt
-				var succ []an.Site
-				for _, s := range f.Returns() {
-					if an.IsNilIdent(f.Info(), s.Node.(*ast.ReturnStmt).Results[1]) {
-						succ = append(succ, s)
-					}
-				}
-				failureStops(o, f, "feeFunction.Increment", incs, an.OkErrNil, append(succ, chk...), "another createAndCheckTx round or a successful return")
-			}
-			for _, s := range f.AllCalls(false) {
-				id := an.CalleeID(f.Info(), s.Node.(*ast.CallExpr))
-				if strings.HasSuffix(id, ".IncreaseFeeRate") || strings.HasSuffix(id, ".increaseFeeRate") {
-					o.FailAt(f.ID+"#other-bump", s.Where(), "the RBF loop changes the fee through %s", id)
-				}
-			}
+			c18RbfLoopExits(o, p)
 		})
 }
 
